@@ -306,6 +306,12 @@ func c12Scenarios() []*c12Case {
 			c12O("CM", "#x", "+l", "1x"), c12O("CM", "#x", "+l", ""), c12O("CM", "#x", "+l", "-"), c12O("CM", "#x", "+l", "9223372036854775807"),
 			c12O("CM", "#x", "+l", "9223372036854775808"), c12O("CM", "#x", "+l", "-9223372036854775808"), c12O("CM", "#x", "+l", "0012"),
 			c12O("CM", "#x", "+k"), c12O("CM", "#x", "+ok", "al", "al"), c12O("NM", "me", "+iwx-w+Bz?o"), c12O("NI", "al", "i", "h", "n"), c12O("TO", "#x", "topic")),
+		// list modes b e I skip their mask (D10): with and without argument, before and after arg-taking letters
+		u(c12O("NC", "#x"), c12O("AS", "#x", "me"), c12O("NN", "al"), c12O("AS", "#x", "al"), c12O("NN", "bo"),
+			c12O("CM", "#x", "+bo", "*!*@*", "al"), c12O("CM", "#x", "-b", "*!*@*"), c12O("CM", "#x", "+eI", "m1", "m2"),
+			c12O("CM", "#x", "+b"), c12O("CM", "#x", "-o+bv", "al", "al", "al"), c12O("CM", "#x", "+bk", "mask", "key"),
+			c12O("CM", "#x", "+kbl", "k2", "mask", "7"), c12O("CM", "#x", "-bo", "me"), c12O("CM", "#x", "+Ibeq", "a", "b", "c", "me"),
+			c12O("CM", "#x", "+ob", "al"), c12O("CM", "#x", "-eIbv", "x", "y", "z", "al"), c12O("CM", "#x", "+bv", "bo", "me")),
 	}
 }
 
@@ -330,7 +336,7 @@ func c12Closure(limit int, emit func(Fields)) (states int, closed bool) {
 	for _, c := range chans[1:] {
 		alphabet = append(alphabet, c12O("CM", c, "+t"), c12O("CM", c, "-t"), c12O("CM", c, "+k", "x"), c12O("CM", c, "-k"))
 		for _, n := range nicks {
-			alphabet = append(alphabet, c12O("CM", c, "+o", n), c12O("CM", c, "-o", n))
+			alphabet = append(alphabet, c12O("CM", c, "+o", n), c12O("CM", c, "-o", n), c12O("CM", c, "+bo", "*!*@*", n))
 		}
 	}
 	alphabet = append(alphabet, c12O("WI"))
@@ -365,14 +371,14 @@ var c12Chans = []string{"", "#x", "#y", "#z"}
 // a mode string and its arguments from a grammar; [isOn] answers membership on the channel
 // the string will be applied to.  Where the property leaves the consumption of arguments
 // open (a privilege letter whose argument names a nick not on the channel; -k), no
-// argument-consuming letter follows in the same string.
+// argument-consuming letter (+k, +l, b e I, q a o h v) follows in the same string.
 func c12ModeString(r *Rand, isOn func(n string) bool) (string, []string) {
 	nargs := r.Intn(5)
 	var args []string
 	for i := 0; i < nargs; i++ {
 		switch r.Intn(10) {
 		case 0:
-			args = append(args, r.Pick([]string{"key", "", "s3cret"}))
+			args = append(args, r.Pick([]string{"key", "", "s3cret", "*!*@*", "*!*@host.example"}))
 		case 1:
 			args = append(args, r.Pick([]string{"5", "-3", "+7", "abc", "", "12x", "0", "99999999999999999999", "40"}))
 		default:
@@ -397,10 +403,12 @@ func c12ModeString(r *Rand, isOn func(n string) bool) (string, []string) {
 			ch = 'k'
 		case k < 13:
 			ch = 'l'
-		case k < 18:
+		case k < 16:
 			ch = "qaohv"[r.Intn(5)]
+		case k < 18:
+			ch = "beI"[r.Intn(3)] // list modes: skip their mask
 		default:
-			ch = "bXe!I"[r.Intn(5)]
+			ch = "XyE!?"[r.Intn(5)]
 		}
 		switch ch {
 		case '+':
@@ -417,6 +425,13 @@ func c12ModeString(r *Rand, isOn func(n string) bool) (string, []string) {
 				}
 			} else if ch == 'k' {
 				open = true
+			}
+		case 'b', 'e', 'I':
+			if open {
+				continue
+			}
+			if len(rest) > 0 {
+				rest = rest[1:]
 			}
 		case 'q', 'a', 'o', 'h', 'v':
 			if open {
